@@ -93,6 +93,7 @@ def fps_distance_matrix(spec, X, y):
         Z = Ci @ (X.T @ Y)
         M = a * C + (1 - a) * (Z @ Z.T)
     d = np.diag(M)
+    fps_distance_matrix.last_norms = np.array(d, dtype=float, copy=True)  # squared norms of the items in the modified metric
     return d[:, None] + d[None, :] - 2 * M
 
 
